@@ -66,6 +66,7 @@ def install(E):
     padd_f = z3.Function('padd', IntS, IntS, IntS)
     def pmul(e, k, P):
         if getattr(e, 'crypto_mode', 'alg') == 'alg': return k * P
+        k, P = z3.simplify(k), z3.simplify(P)
         t = pmul_f(k, P)
         lst = e.P.g.setdefault('pmuls', [])
         if not any(t.eq(x[0]) for x in lst):
@@ -76,7 +77,10 @@ def install(E):
         return t
     def padd(e, a, b):
         if getattr(e, 'crypto_mode', 'alg') == 'alg': return a + b
-        return padd_f(a, b) if a.get_id() <= b.get_id() else padd_f(b, a)
+        a, b = z3.simplify(a), z3.simplify(b)
+        # commutativity by a canonical argument order; the structural hash is stable (AST ids are not: freed terms get new ids)
+        ka, kb = (a.hash(), a.sexpr()) if a.hash() == b.hash() else (a.hash(), ''), (b.hash(), b.sexpr()) if a.hash() == b.hash() else (b.hash(), '')
+        return padd_f(a, b) if ka <= kb else padd_f(b, a)
     def pubof(e, k):
         if getattr(e, 'crypto_mode', 'alg') == 'alg': return k
         return pmul(e, k, z3.IntVal(1))
